@@ -52,6 +52,11 @@ macro_rules! real_enum {
     ($name:ident : $($var:ident = $mn:literal),+ $(,)?) => {
         #[derive(Copy, Clone, PartialEq, Debug, scpi_derive::ScpiEnum)]
         pub enum $name { $( #[scpi(mnemonic = $mn)] $var ),+ }
+        // the first variant is also the `Default` of the type, as in application code (`#[derive(Default)]` + `#[default]`
+        // cannot be generated per variant from here; a manual impl is what older code bases have)
+        impl Default for $name {
+            fn default() -> Self { Self::ALL[0] }
+        }
         impl $name {
             const ALL: &'static [$name] = &[$($name::$var),+];
             fn idx(&self) -> usize { Self::ALL.iter().position(|v| v == self).unwrap() }
@@ -82,6 +87,7 @@ real_enum!(ByteOrder: Normal = b"NORMal", Swapped = b"SWAPped");
 real_enum!(Coupling: Dc = b"DC", Ac = b"AC", Ground = b"GROund");
 real_enum!(Function: Voltage = b"VOLTage", Current = b"CURRent", Resistance = b"RESistance", FResistance = b"FRESistance", Frequency = b"FREQuency", Period = b"PERiod", Temperature = b"TEMPerature");
 real_enum!(Channel: Ch1 = b"CH1", Ch2 = b"CH2", Ch3 = b"CH3", Ch4 = b"CH4");
+real_enum!(ChannelWide: Ch1 = b"CH1", Ch11 = b"CH11", Ch21 = b"CH21", Ch2 = b"CH2", Ch111 = b"CH111", Aux31 = b"AUXiliary31", Aux3 = b"AUXiliary3", Slot101 = b"SLOT101", Slot10 = b"SLOT10");
 real_enum!(TrueFalse: True = b"TRUE", False = b"FALSE");
 real_enum!(YesNo: Yes = b"YES", No = b"NO");
 real_enum!(ZeroOne: Zero = b"ZERO", One = b"ONE");
@@ -128,7 +134,7 @@ pub const NUMERIC_VALUE_QUERY: EnumInfo = {
 pub static REALISTIC: &[EnumInfo] = &[
     NUMERIC_VALUE_QUERY,
     OnOff::INFO, AutoOnOff::INFO, OffOnOnce::INFO, MinMaxDef::INFO, UpDown::INFO, InfNinfNan::INFO, TrigSource::INFO, Slope::INFO, DataFormat::INFO, ByteOrder::INFO, Coupling::INFO,
-    Function::INFO, Channel::INFO, TrueFalse::INFO, YesNo::INFO, ZeroOne::INFO, LowHigh::INFO, NoneAll::INFO, Unit::INFO, Single::INFO, Windows::INFO, StateE::INFO,
+    Function::INFO, Channel::INFO, ChannelWide::INFO, TrueFalse::INFO, YesNo::INFO, ZeroOne::INFO, LowHigh::INFO, NoneAll::INFO, Unit::INFO, Single::INFO, Windows::INFO, StateE::INFO,
 ];
 
 /// generated corpus + realistic definitions
